@@ -101,12 +101,47 @@ func Load(repo, tier string, tests bool) (*Ctx, error) {
 			}
 		}
 	}
-	sort.Slice(c.Funcs, func(i, j int) bool { return funcName(c.Funcs[i]) < funcName(c.Funcs[j]) })
-	for _, f := range c.Funcs {
-		if f.Synthetic != "" {
+	// instantiations of in-repo generic functions/methods (e.g. WriteAheadLog[walEntry].Append)
+	for f := range ssautil.AllFunctions(prog) {
+		o := f.Origin()
+		if o == nil || f.Blocks == nil || len(f.TypeArgs()) == 0 {
 			continue
 		}
-		c.byName[funcName(f)] = f
+		if o.Pkg == nil || !strings.HasPrefix(o.Pkg.Pkg.Path(), modPath) {
+			continue
+		}
+		add(f)
+	}
+	sort.Slice(c.Funcs, func(i, j int) bool {
+		a, b := funcName(c.Funcs[i]), funcName(c.Funcs[j])
+		if a != b {
+			return a < b
+		}
+		return c.Funcs[i].String() < c.Funcs[j].String()
+	})
+	for _, f := range c.Funcs {
+		if f.Synthetic != "" && len(f.TypeArgs()) == 0 {
+			continue
+		}
+		n := funcName(f)
+		if old, ok := c.byName[n]; ok {
+			// prefer an instantiation whose type arguments are production types over the generic body or a test
+			// instantiation; among those, the one with a real body (not a thin wrapper)
+			score := func(g *ssa.Function) int {
+				s := 0
+				if len(g.TypeArgs()) > 0 && !strings.Contains(g.String(), "_test") && !strings.Contains(g.String(), "test.") {
+					s += 1000000
+				}
+				for _, b := range g.Blocks {
+					s += len(b.Instrs)
+				}
+				return s
+			}
+			if score(old) >= score(f) {
+				continue
+			}
+		}
+		c.byName[n] = f
 	}
 	return c, nil
 }
@@ -218,7 +253,7 @@ func (c *Ctx) IsTestFile(p token.Pos) bool {
 func (c *Ctx) ProdFuncs() []*ssa.Function {
 	var out []*ssa.Function
 	for _, f := range c.Funcs {
-		if f.Synthetic != "" || c.IsTestFile(f.Pos()) {
+		if (f.Synthetic != "" && len(f.TypeArgs()) == 0) || c.IsTestFile(f.Pos()) {
 			continue
 		}
 		out = append(out, f)
